@@ -89,6 +89,21 @@ func (w *World) Go(name string, fn func()) *Task {
 	return t
 }
 
+// Stalled reports whether some neighbour currently does not read (block_write fault active).
+func (w *World) Stalled() bool {
+	for _, p := range w.Peers {
+		if p.conn != nil {
+			p.conn.mu.Lock()
+			b := p.conn.wBlocked
+			p.conn.mu.Unlock()
+			if b {
+				return true
+			}
+		}
+	}
+	return false
+}
+
 // PendingTasks lists tasks that have not returned.
 func (w *World) PendingTasks() []*Task {
 	var out []*Task
@@ -392,6 +407,7 @@ func RunPlan(t *testing.T, plan *Plan, opt RunOpts) (res *RunResult) {
 func runInBubble(t *testing.T, plan *Plan, opt RunOpts, res *RunResult) {
 	cfg := plan.Sim.Config()
 	env := NewEnv(plan.Seed, cfg)
+	env.PlanProp = plan.Prop
 	defer env.Close()
 	env.KeepTrace = opt.KeepTrace
 	w := &World{T: t, Env: env, Plan: plan, Data: map[string]any{}}
@@ -443,8 +459,15 @@ func runInBubble(t *testing.T, plan *Plan, opt RunOpts, res *RunResult) {
 			res.Wedged = true
 			return
 		}
-		for _, o := range w.Oracles {
-			o.AfterStep(w, i, s)
+		if w.Stalled() {
+			// a neighbour has stopped reading: the DUT goroutine that writes to it may hold table
+			// locks (by design), so the driver must not read the tables now; the oracles look again
+			// after the stall has ended
+			env.probe("observation_skipped_during_stall")
+		} else {
+			for _, o := range w.Oracles {
+				o.AfterStep(w, i, s)
+			}
 		}
 		res.Steps++
 	}
